@@ -221,6 +221,10 @@ def transport_cases(framing):
         yield f'truncated-{cut}', f[:-cut]
     yield 'flip-first-payload-bit', f[:9] + bytes([f[9] ^ 1]) + f[10:]
     yield 'flip-last-bit', f[:-1] + bytes([f[-1] ^ 0x80])
+    # a well-formed frame that arrives in two pieces: what is delivered is the frame, not one of the pieces
+    h0 = dict(rtu=5, tcp=9, aa55=9)[framing]
+    for k in sorted({h0, h0 + 1, max(h0, len(f) // 2 + 1), len(f) - 1}):
+        yield f'valid-in-two-pieces@{k}', (f[:k], f[k:])
     if framing != 'aa55':
         b = 4 if framing == 'rtu' else 8
         yield 'wrong-count', f[:b] + bytes([f[b] + 2]) + f[b + 1:] + b'\0\0'
@@ -244,6 +248,9 @@ def run_transport(framing, name, data, ka, prior='none'):
 
     def plan(k, req, now):
         d = good if state['prior'] else data
+        if isinstance(d, tuple):
+            first = req[:2] + d[0][2:] if framing == 'tcp' else d[0]
+            return [(D0, ('data', first)), (0.3, ('data', d[1]))]
         if framing == 'tcp' and len(d) >= 2:
             return [(D0, ('data', req[:2] + d[2:]))]
         return [(D0, ('data', d))]
@@ -272,6 +279,7 @@ def run_transport(framing, name, data, ka, prior='none'):
         desc = dict(kind='aa55', rtype=b'\x01\x86') if framing == 'aa55' else dict(kind='read', count=3)
         if wire.classify_response(framing, desc, res[1]) != 'wellformed':
             vio.append(('delivered-malformed', f'{name}: execute() returned {res[1].hex()}'))
+    # (whether a split frame IS delivered is C07's subject; here only: what is delivered is a well-formed frame)
     return vio, res
 
 
@@ -385,7 +393,8 @@ def run(tier, seed, rep):
                     nt += 1
                     for clause, cause in vio:
                         rep.add(f'{clause}/{framing}/{name}' + (f'/after:{prior}' if prior != 'none' else ''), clause,
-                                dict(part='K', framing=framing, name=name, data=data.hex(), ka=ka, prior=prior),
+                                dict(part='K', framing=framing, name=name, ka=ka, prior=prior,
+                                     data='|'.join(x.hex() for x in data) if isinstance(data, tuple) else data.hex()),
                                 dict(cause=cause, earlier_request=prior))
     cov = dict(evaluations=total + nt + ncross, distinct_nontrivial=nontriv, cross_command_evaluations=ncross,
                rule='strings = every prefix + every single-bit flip of every canonical frame, field-grammar product '
@@ -414,5 +423,6 @@ def replay(r):
         o = check_one(cmd, r['framing'], desc, bytes.fromhex(r['data']), vio, spec, 'replay')
         return dict(outcome=o, classifier=wire.classify_response(r['framing'], desc, bytes.fromhex(r['data'])),
                     violations=[v[:2] + (v[4],) for v in vio])
-    vio, res = run_transport(r['framing'], r['name'], bytes.fromhex(r['data']), r['ka'], r.get('prior', 'none'))
+    data = tuple(bytes.fromhex(x) for x in r['data'].split('|')) if '|' in r['data'] else bytes.fromhex(r['data'])
+    vio, res = run_transport(r['framing'], r['name'], data, r['ka'], r.get('prior', 'none'))
     return dict(result=[str(x) for x in res[:3]], violations=vio)
